@@ -55,6 +55,31 @@ def desc(alphabet=NARROW, max_runs=5, max_len=5, min_runs=0, allow_false=True, e
     return st.lists(run, min_size=min_runs, max_size=max_runs)
 
 
+def desc_sized(alphabet=NARROW, max_runs=5, max_len=5, min_runs=0, allow_false=True, big_runs=70, big_len=300, huge=True):
+    """mostly small descriptions (they shrink and enumerate well), now and then a large one: many runs and/or long
+    texts, so that size thresholds (buffer sizes, powers of two, 'more than N items') are crossed"""
+    small = desc(alphabet, max_runs, max_len, min_runs, allow_false)
+    many_runs = desc(alphabet, big_runs, 3, max(min_runs, 9), allow_false)
+    long_text = st.lists(st.tuples(text(alphabet, 0, big_len), atts(allow_false)).map(list), min_size=max(min_runs, 1), max_size=3)
+    huge_runs = desc(alphabet, 130, 2, max(min_runs, 65), allow_false)
+    repeated = st.tuples(desc(alphabet, 3, max_len, max(min_runs, 1), allow_false), st.integers(2, 3)).map(lambda t: [list(r) for r in t[0]] * t[1])
+    if not huge:
+        return st.one_of(small, small, small, small, small, repeated, many_runs, long_text)
+    return st.one_of(small, small, small, small, small, repeated, many_runs, long_text, huge_runs)
+
+
+def plain_str(max_size=4):
+    """plain str operands: ordinary text, sometimes with a bare ESC (never 'ESC[': fmtstr() parses that by design) or U+009B"""
+    odd = st.text(alphabet="ab1;mMA\x1b\x9b ", max_size=max(max_size, 5)).map(lambda s: s.replace("\x1b[", "\x1bM"))
+    return st.one_of(text(NARROW, 0, max_size), text(NARROW, 0, max_size), odd)
+
+
+OBS = st.one_of(st.just(0), st.just(0), st.integers(0, 0xFFFF), st.just(0xFFFF))
+PLAIN_BUILDS = ["chunks", "fmtstr", "names"]
+DERIVED_BUILDS = ["d_removed", "d_false", "d_slice", "d_concat", "d_copy", "d_mul"]
+BUILDS = st.sampled_from(PLAIN_BUILDS + PLAIN_BUILDS + DERIVED_BUILDS)
+
+
 ALL_TEXT = NARROW + CTRL + WIDE + COMBINING + ASTRAL_WIDE + ASTRAL_NARROW
 
 
